@@ -155,6 +155,9 @@ HAND = [
     # and/or inside the arms of a conditional expression (evaluated only when selected), targets read after the loop
     "def f(a, b, c):\n    r = ev(1) if c else (a or ev(2))\n    s = (b and ev(3)) if a else ev(4)\n    t = ev(5, a) if (a and b) else (ev(6) if c else (b or ev(7)))\n    return (r, s, t)\n",
     "def f(a, b, c):\n    o = Box()\n    d = [5, 6]\n    for o.v in seq(1, a + 1):\n        ev(2, o.v)\n    for d[1] in seq(3, b + 1):\n        if d[1] == c:\n            break\n    else:\n        ev(4, d[1])\n    return (o.v, d[0], d[1])\n",
+    # and/or as an ELEMENT of a tuple / list / dict display, a call keyword or a subscript: evaluated in place, after the elements to its left
+    "def f(a, b, c):\n    t = (ev(1), a and ev(2), [ev(3), b or ev(4)], {ev(5): c and ev(6)})\n    u = ev(7, k=a or ev(8), j=[b and ev(9)][0])\n    return (t, u, ev(10), c or ev(11))\n",
+    "def f(a, b, c):\n    xs = [ev(1), ev(2)]\n    y = xs[a and 1], xs[(b or ev(3)) % 2]\n    z = [ev(4, i) for i in seq(5, 2) if i or ev(6)]\n    return y, z, (lambda q: q and ev(7))(c)\n",
     # bare return, return inside nested loops, while/else
     "def f(a, b, c):\n    if a > 2:\n        return\n    for i in seq(1, b + 1):\n        if i == c:\n            return\n        ev(2, i)\n    ev(3)\n",
     "def f(a, b, c):\n    r = 0\n    while r < a:\n        r += 1\n        s = 0\n        while s < b:\n            s += 1\n            if s == c:\n                return ev(1, r, s)\n            if s > r:\n                break\n        else:\n            r += ev(2)\n            continue\n        r += ev(3, s)\n    else:\n        return ev(4, r)\n    return r\n",
